@@ -360,6 +360,16 @@ impl Scenario for Roundtrip {
                 if rs.chance(1, 2) {
                     let mut l = gen_layout(&mut r, 5, max_content.min(5000), true);
                     l.trailing = 0;
+                    if Rng::derive(s, "base-hole").chance(1, 7) {
+                        // a base whose entries really lie beyond 4 GiB (behind prepended data or not): a hole on the
+                        // sparse disk, offsets in ZIP64 records - "archives with prepended data, ZIP64 structures"
+                        let mut rh = Rng::derive(s, "base-hole2");
+                        l.hole = match rh.below(3) {
+                            0 => (1u64 << 32) - 1 - rh.below(400),
+                            1 => (1u64 << 32) + rh.below(400),
+                            _ => (1u64 << 32) - 600 + rh.below(1200),
+                        };
+                    }
                     // D12 aside, ZIP64 end records the base does not need are part of the space
                     base = Some(Source::Built(l));
                     start_pos = 0;
@@ -640,9 +650,9 @@ impl Scenario for Roundtrip {
         };
         let prop = ctx.property.clone();
         let (src_stores, src_infos, _) = sources_to_stores(&c.sources);
-        let base_img = c.base.as_ref().map(|b| b.image());
+        let base_img: Option<Shared> = c.base.as_ref().map(|b| b.store());
         let mk_store = || match &base_img {
-            Some(b) => shared_from(b),
+            Some(b) => std::sync::Arc::new(std::sync::Mutex::new(b.lock().unwrap_or_else(|e| e.into_inner()).clone())),
             None => shared_empty(),
         };
         // run 1: finish; run 2: drop
@@ -929,12 +939,15 @@ fn big_extra(r: &mut Rng) -> Vec<u8> {
 }
 
 /// the crate's own reading of a base archive (reference for C13)
-fn base_view(img: &[u8]) -> Result<(Vec<MEntry>, Vec<u8>, bool), String> {
-    let mut ar = zip::ZipArchive::new(std::io::Cursor::new(img.to_vec())).map_err(|e| zerr_pub(&e))?;
+fn base_view(st: &Shared) -> Result<(Vec<MEntry>, Vec<u8>, bool), String> {
+    let mut ar = zip::ZipArchive::new(SimDisk::new(st.clone(), Policy::Pure)).map_err(|e| zerr_pub(&e))?;
     let comment = ar.comment().to_vec();
     let mut out = vec![];
     let mut dd = false;
-    let p = crate::indep::parse(img).ok();
+    let p = {
+        let g = st.lock().unwrap_or_else(|e| e.into_inner());
+        crate::indep::parse(&*g).ok()
+    };
     for i in 0..ar.len() {
         let enc = p.as_ref().and_then(|p| p.centrals.get(i)).map(|c| c.flags & 1 != 0).unwrap_or(false);
         if p.as_ref().and_then(|p| p.centrals.get(i)).map(|c| c.flags & 8 != 0).unwrap_or(false) {
